@@ -98,3 +98,32 @@ package signedexchange
 //@     invariant statefulRequestHeadersSet != nil && fresh(statefulRequestHeadersSet) && len(statefulRequestHeaders) == 5
 //@     invariant statefulRequestHeaders[0] == "authorization" && statefulRequestHeaders[1] == "cookie" && statefulRequestHeaders[2] == "cookie2" && statefulRequestHeaders[3] == "proxy-authorization" && statefulRequestHeaders[4] == "sec-websocket-key"
 //@     invariant forall s string :: has(statefulRequestHeadersSet, s) <==> ((rangeindex >= 0 && s == "authorization") || (rangeindex >= 1 && s == "cookie") || (rangeindex >= 2 && s == "cookie2") || (rangeindex >= 3 && s == "proxy-authorization") || (rangeindex >= 4 && s == "sec-websocket-key"))
+//@   loop 1:
+//@     invariant uncachedHeadersSet != nil && fresh(uncachedHeadersSet) && len(uncachedHeaders) == 19 && statefulRequestHeadersSet != nil && uncachedHeadersSet != statefulRequestHeadersSet
+//@     invariant uncachedHeaders[0] == "connection" && uncachedHeaders[1] == "keep-alive" && uncachedHeaders[2] == "proxy-connection" && uncachedHeaders[3] == "trailer" && uncachedHeaders[4] == "transfer-encoding" && uncachedHeaders[5] == "upgrade" && uncachedHeaders[6] == "authentication-control" && uncachedHeaders[7] == "authentication-info" && uncachedHeaders[8] == "clear-site-data" && uncachedHeaders[9] == "optional-www-authenticate" && uncachedHeaders[10] == "proxy-authenticate" && uncachedHeaders[11] == "proxy-authentication-info" && uncachedHeaders[12] == "public-key-pins" && uncachedHeaders[13] == "sec-websocket-accept" && uncachedHeaders[14] == "set-cookie" && uncachedHeaders[15] == "set-cookie2" && uncachedHeaders[16] == "setprofile" && uncachedHeaders[17] == "strict-transport-security" && uncachedHeaders[18] == "www-authenticate"
+//@     invariant forall s string :: has(uncachedHeadersSet, s) <==> ((rangeindex >= 0 && s == "connection") || (rangeindex >= 1 && s == "keep-alive") || (rangeindex >= 2 && s == "proxy-connection") || (rangeindex >= 3 && s == "trailer") || (rangeindex >= 4 && s == "transfer-encoding") || (rangeindex >= 5 && s == "upgrade") || (rangeindex >= 6 && s == "authentication-control") || (rangeindex >= 7 && s == "authentication-info") || (rangeindex >= 8 && s == "clear-site-data") || (rangeindex >= 9 && s == "optional-www-authenticate") || (rangeindex >= 10 && s == "proxy-authenticate") || (rangeindex >= 11 && s == "proxy-authentication-info") || (rangeindex >= 12 && s == "public-key-pins") || (rangeindex >= 13 && s == "sec-websocket-accept") || (rangeindex >= 14 && s == "set-cookie") || (rangeindex >= 15 && s == "set-cookie2") || (rangeindex >= 16 && s == "setprofile") || (rangeindex >= 17 && s == "strict-transport-security") || (rangeindex >= 18 && s == "www-authenticate"))
+//@     invariant forall s string :: has(statefulRequestHeadersSet, s) <==> (s == "authorization" || s == "cookie" || s == "cookie2" || s == "proxy-authorization" || s == "sec-websocket-key")
+
+//@ uf strLower(string) string
+//@ func IsStatefulRequestHeader
+//@   props C09
+//@   ensures[iff-in-list] result <==> (strLower(n) == "authorization" || strLower(n) == "cookie" || strLower(n) == "cookie2" || strLower(n) == "proxy-authorization" || strLower(n) == "sec-websocket-key")
+//@   assigns nothing
+
+//@ func IsUncachedHeader
+//@   props C09
+//@   ensures[iff-in-list] result <==> has(uncachedHeadersSet, strLower(n))
+//@   assigns nothing
+
+// VerifyUncachedHeader / verifyHeaders: accepted exactly when no field name
+// (in any letter case) is in the banned set.
+//@ func VerifyUncachedHeader
+//@   props C09
+//@   ensures[iff-none-banned] result == nil <==> (forall k string :: has(h, k) ==> !has(uncachedHeadersSet, strLower(k)))
+//@   assigns nothing
+
+//@ func isSameOrigin
+//@   props C09
+//@   requires u1 != nil && u2 != nil
+//@   ensures result <==> (u1.Scheme == u2.Scheme && u1.Host == u2.Host)
+//@   assigns nothing
